@@ -24,6 +24,11 @@ EXPLANATION = (
 ASSUMPTIONS = ["std Vec::insert/remove/push and Option::or/map_or_else semantics",
                "the full ordering invariant over histories follows from the per-operation clauses by induction, which is not mechanised here",
                "Instant::now monotonicity; KBucketsTable::buckets has NUM_BUCKETS entries (constructor not analysed beyond the constant)"]
+TECHNIQUE = ("All patterns are evaluated on a normalised view of the MIR facts (vrules/lib_kad.canon): parameters by position, every "
+             "single-definition local expanded to its initialiser, closure captures by index, trivial crate-local helpers (accessors, one-comparison "
+             "predicates, one-line constructors) replaced by their bodies, private fields resolved by their type, comparisons normalised over operand "
+             "order / mirrored operators / method-call form / `!`, guard sets closed under bool hoisting. Behaviour-preserving refactorings that must stay "
+             "silent are archived in /verif/neutral/kad (01-12 and x1-author-combinators.diff).")
 SELFTEST = [
     {"mutation": "seeded C37: apply_pending disconnected-pending arm also sets first_connected_pos = Some(insert_pos)", "caught_by": "apply_pending/disconnected pending, some connected: boundary not written"},
     {"mutation": "insert Connected: `>=` -> `>` in len >= capacity", "caught_by": "insert/Connected: push only below capacity"},
@@ -39,18 +44,54 @@ SELFTEST = [
 ]
 
 KB = r"^libp2p_kad::kbucket::bucket::KBucket::"
-NODES = r"^self\.nodes$"
-LEN = r"^std::vec::Vec::len\(self\.nodes\)$"
-CAP = r"^self\.capacity$"
 NS = r"kbucket::bucket::NodeStatus$"
+
+
+class F:
+    """private field names resolved by type (a consistent rename is not an alarm)"""
+    nodes = capacity = fcp = pending = timeout = p_node = p_status = p_replace = buckets = local_key = applied = e_bucket = e_key = None
+
+
+NODES = LEN = CAP = FCP = PENDF = None
+
+
+def resolve(prog):
+    global NODES, LEN, CAP, FCP, PENDF
+    kb = r"kbucket::bucket::KBucket$"
+    F.nodes = lk.fld(prog, kb, r"^std::vec::Vec<kbucket::bucket::Node<")
+    F.capacity = lk.fld(prog, kb, r"^usize$")
+    F.fcp = lk.fld(prog, kb, r"^std::option::Option<usize>$")
+    F.pending = lk.fld(prog, kb, r"^std::option::Option<kbucket::bucket::PendingNode<")
+    F.timeout = lk.fld(prog, kb, r"Duration$")
+    pn = r"kbucket::bucket::PendingNode$"
+    F.p_node = lk.fld(prog, pn, r"^kbucket::bucket::Node<")
+    F.p_status = lk.fld(prog, pn, r"NodeStatus$")
+    F.p_replace = lk.fld(prog, pn, r"Instant$")
+    kt = r"kbucket::KBucketsTable$"
+    F.buckets = lk.fld(prog, kt, r"^std::vec::Vec<kbucket::bucket::KBucket<")
+    F.local_key = lk.fld(prog, kt, r"^TKey$")
+    F.applied = lk.fld(prog, kt, r"VecDeque<")
+    er = r"kbucket::entry::EntryRef$"
+    F.e_bucket = lk.fld(prog, er, r"kbucket::bucket::KBucket<")
+    F.e_key = lk.fld(prog, er, r"TKey$")
+    NODES = r"^self\.%s$" % F.nodes
+    LEN = r"^std::vec::Vec::len\(self\.%s\)$" % F.nodes
+    CAP = r"^self\.%s$" % F.capacity
+    FCP = "self.%s" % F.fcp
+    PENDF = "self.%s" % F.pending
 
 
 def nodes_calls(b, m):
     return lk.recv_calls(b, r"^std::vec::Vec::%s$" % m, NODES)
 
 
+def fcp_some_edges(b, labels):
+    return lib.switch_edges_on(b, r"^discr\(%s\)$" % re.escape(FCP), labels)
+
+
 def check(ctx):
-    prog = ctx.prog
+    prog = lk.canon(ctx)
+    resolve(prog)
     ins = ctx.body(K, KB + r"insert$")
     rem = ctx.body(K, KB + r"remove$")
     app = ctx.body(K, KB + r"apply_pending$")
@@ -66,62 +107,81 @@ def check(ctx):
 
 
 # ------------------------------------------------------------------------------------------------ insert
+def arms_of(b, subj_pat):
+    k = lk.enum_known_edges(b, subj_pat, NS, ["Connected", "Disconnected"])
+    return tg(k["Connected"]), tg(k["Disconnected"])
+
+
 def check_insert(ctx, b):
+    NODE = lk.arg_of_type(b, r"^kbucket::bucket::Node<")          # parameters by type, not by position
+    STAT = lk.arg_of_type(b, r"NodeStatus$")
     rets = b.return_blocks()
     W = lk.where(b)
-    fx = lk.field_effects(b, "first_connected_pos")
+    fx = lk.field_effects(b, F.fcp)
     pushes, inserts = nodes_calls(b, "push"), nodes_calls(b, "insert")
     grow = pushes + inserts
     ctx.floor("insert", "nodes growth sites", grow, 3)
     ctx.floor("insert", "boundary writes", fx, 2)
     removes = nodes_calls(b, "remove")
     ctx.ob("insert", "insert never removes", not removes, W, "%d Vec::remove" % len(removes))
-    # capacity: every growth site strictly below capacity
+    conn, disc = arms_of(b, "^" + STAT + "$")
+    ctx.ob("insert", "floor:status arms", len(conn) == 1 and len(disc) == 1, W, nontrivial=False, msg="%s %s" % (conn, disc))
+    rc, rd = b.reachable(conn), b.reachable(disc)
     for s in grow:
-        arm = "Connected" if s.bb in b.reachable(tg(lib.arm_entry(b, r"^discr\(status\)$", "Connected"))) else "Disconnected"
+        arm = "Connected" if (s.bb in rc and s.bb not in rd) else "Disconnected"
         kind = strip_generics(b.call_name(s.term)).split("::")[-1]
-        lib.limit_guard(ctx, "insert", "%s: %s only below capacity" % (arm, kind), s, LEN, CAP, "nodes.len() < capacity on every path to nodes.%s" % kind)
-    conn = tg(lib.arm_entry(b, r"^discr\(status\)$", "Connected"))
-    disc = tg(lib.arm_entry(b, r"^discr\(status\)$", "Disconnected"))
-    ctx.ob("insert", "floor:status arms", len(conn) == 1 and len(conn) == len(disc), W, nontrivial=False, msg="%s %s" % (conn, disc))
-    good, _ = lib.strict_limit_edges(b, LEN, CAP)
-    full = lib.at_limit_edges(b, LEN, CAP)
+        lk.limit(ctx, "insert", "%s: %s only below capacity" % (arm, kind), s, LEN, CAP, "nodes.len() < capacity on every path to nodes.%s" % kind)
+    good = lk.hoisted(b, lk.rel_edges(b, LEN, CAP, "<"))
+    full = lk.hoisted(b, lk.rel_edges(b, LEN, CAP, ">="))
     # --- Connected arm
-    rc = b.reachable(conn)
-    notfull_c = [t for (s_, t) in good if s_ in rc]
-    full_c = [t for (s_, t) in full if s_ in rc]
+    notfull_c = [t for (s_, t) in good if s_ in rc and s_ not in rd]
+    full_c = [t for (s_, t) in full if s_ in rc and s_ not in rd]
     sets = [s for s, k, _ in fx if k == "set"]
+    OR_FORM = "std::option::Option::or(%s, std::option::Option::Some{0: std::vec::Vec::len(self.%s)})" % (FCP, F.nodes)
+    IF_FORM = "std::option::Option::Some{0: std::vec::Vec::len(self.%s)}" % F.nodes
+    csets = [x for x in sets if x.bb in rc and x.bb not in rd]
+    conditional = bool(csets) and all(R(b, x) == IF_FORM for x in csets)       # `if fcp.is_none() { fcp = Some(len) }` instead of `fcp.or(..)`
+    no_conn = fcp_some_edges(b, {"None"}) | lib.switch_edges_on(b, r"^std::option::Option::is_none\(%s\)$" % re.escape(FCP), {"true"}) | lib.switch_edges_on(b, r"^std::option::Option::is_some\(%s\)$" % re.escape(FCP), {"false"})
+    has_conn = fcp_some_edges(b, {"Some"}) | lib.switch_edges_on(b, r"^std::option::Option::is_none\(%s\)$" % re.escape(FCP), {"false"}) | lib.switch_edges_on(b, r"^std::option::Option::is_some\(%s\)$" % re.escape(FCP), {"true"})
     for name, starts, want_grow, want_set in (("Connected,not full", notfull_c, (1, 1), (1, 1)), ("Connected,full", full_c, (0, 0), (0, 0))):
         g = cnt(b, starts, rets, grow) if starts else None
         w = cnt(b, starts, rets, [s for s, _, _ in fx]) if starts else None
         ctx.ob("insert", "%s: nodes grows %s" % (name, want_grow), g == want_grow, W, "growth sites on all paths: %s" % (g,))
-        ctx.ob("insert", "%s: boundary written %s" % (name, want_set), w == want_set, W, "boundary writes on all paths: %s" % (w,))
-    for s in [x for x in sets if x.bb in rc]:
+        if conditional and want_set == (1, 1):
+            nc = [t for (x, t) in no_conn if x in b.reachable(starts)]
+            hc = [t for (x, t) in has_conn if x in b.reachable(starts)]
+            w1, w0 = (cnt(b, nc, rets, csets) if nc else None), (cnt(b, hc, rets, csets) if hc else None)
+            ctx.ob("insert", "%s: boundary written %s" % (name, want_set), w1 == (1, 1) and w0 == (0, 0), W, "conditional form: no connected node yet -> %s write, otherwise %s" % (w1, w0))
+        else:
+            ctx.ob("insert", "%s: boundary written %s" % (name, want_set), w == want_set, W, "boundary writes on all paths: %s" % (w,))
+    for s in csets:
         e = b.site_expr(s)
         txt = render(e)
-        ok = re.match(r"^std::option::Option::or\(self\.first_connected_pos, std::option::Option::Some\{0: std::vec::Vec::len\(self\.nodes\)\}\)$", txt) is not None
+        ok = txt == OR_FORM or (conditional and lk.passes(b, s.bb, no_conn))
         ctx.ob("insert", "Connected: boundary := fcp.or(Some(len))", ok, s.loc(), txt[:160])
         lens = [c[3] for c in mir.calls_in(e, r"Vec::len$")]
-        pb = [p.bb for p in pushes if p.bb in rc]
+        pb = [p.bb for p in pushes if p.bb in rc and p.bb not in rd]
         ok2 = bool(lens) and bool(pb) and all(b.dominates(l, p) and l != p and l not in b.reachable(b.succ[p]) for l in lens for p in pb)
         ctx.ob("insert", "Connected: len is read before the push", ok2, s.loc(), "len() blocks %s push blocks %s" % (lens, pb))
-    for s in [p for p in pushes if p.bb in rc]:
-        ctx.ob("insert", "Connected: pushes the given node", render(b.site_expr(s)[2][1]) == "node", s.loc(), R(b, s)[:120])
-    ctx.ob("insert", "Connected: appends (no positional insert)", not [s for s in inserts if s.bb in rc], W, "connected nodes go to the end")
+    for s in [p for p in pushes if p.bb in rc and p.bb not in rd]:
+        ctx.ob("insert", "Connected: pushes the given node", render(b.site_expr(s)[2][1]) == NODE, s.loc(), R(b, s)[:120])
+    ctx.ob("insert", "Connected: appends (no positional insert)", not [s for s in inserts if s.bb in rc and s.bb not in rd], W, "connected nodes go to the end")
     # pending recorded only: full, fcp != Some(0), no pending
-    pend = lk.field_effects(b, "pending")
+    pend = lk.field_effects(b, F.pending)
     ctx.floor("insert", "pending writes", pend, 1)
+    some_disc = lk.rel_edges(b, "^" + re.escape(FCP) + "$", r"^std::option::Option::Some\{0: 0\}$", "!=") | lk.rel_edges(b, "^" + re.escape(FCP) + r"@Some\.0$", r"^0$", "!=")
     for s, k, txt in pend:
         ctx.ob("insert", "pending: whole-field store", k == "set", s.loc(), k)
-        ctx.ob("insert", "pending: only in the Connected arm", s.bb in rc and s.bb not in b.reachable(disc), s.loc(), "")
-        ctx.ob("insert", "pending: only when the bucket is full", bool(full) and b.must_pass_edges(s.bb, full), s.loc(), "len >= capacity edge")
-        ctx.guarded("insert", "pending: only when some node is disconnected (fcp != Some(0))", s,
-                    lambda c, r, l: l == "false" and re.search(r"PartialEq>::eq\(self\.first_connected_pos, std::option::Option::Some\{0: 0\}\)$", r) is not None,
-                    "first_connected_pos == Some(0) is false")
+        ctx.ob("insert", "pending: only in the Connected arm", s.bb in rc and s.bb not in rd, s.loc(), "")
+        ctx.ob("insert", "pending: only when the bucket is full", lk.passes(b, s.bb, full), s.loc(), "len >= capacity edge")
+        ctx.ob("insert", "pending: only when some node is disconnected (fcp != Some(0))", lk.passes(b, s.bb, some_disc), s.loc(), "first_connected_pos == Some(0) is false")
         ctx.guarded("insert", "pending: only when no pending node exists", s,
-                    lambda c, r, l: (l == "false" and r == "std::option::Option::is_some(self.pending)") or (l == "true" and r == "std::option::Option::is_none(self.pending)")
-                    or (l == "None" and r == "discr(self.pending)"), "self.pending.is_some() is false")
-        ok = re.search(r"PendingNode\{node: node, status: libp2p_kad::kbucket::bucket::NodeStatus::Connected\{\}, replace: <web_time::Instant as std::ops::Add>::add\(web_time::Instant::now\(\), self\.pending_timeout\)\}", txt) is not None
+                    lambda c, r, l: (l == "false" and r == "std::option::Option::is_some(%s)" % PENDF) or (l == "true" and r == "std::option::Option::is_none(%s)" % PENDF)
+                    or (l == "None" and r == "discr(%s)" % PENDF), "self.pending.is_some() is false")
+        e = b.site_expr(s)
+        f = dict(e[4][0][1][4]) if e[0] == "agg" and e[3] == "Some" and e[4] and e[4][0][1][0] == "agg" else {}
+        ok = (render(f.get(F.p_node, ("unknown", "?"))) == NODE and render(f.get(F.p_status, ("unknown", "?"))).endswith("NodeStatus::Connected{}")
+              and render(f.get(F.p_replace, ("unknown", "?"))) == "<web_time::Instant as std::ops::Add>::add(web_time::Instant::now(), self.%s)" % F.timeout)
         ctx.ob("insert", "pending: {node, Connected, now + pending_timeout}", ok, s.loc(), txt[-220:])
     # results
     for variant, want in (("Inserted", (1, 1)), ("Full", (0, 0)), ("Pending", (0, 0))):
@@ -132,18 +192,17 @@ def check_insert(ctx, b):
         if variant == "Pending":
             for s in rs:
                 t = R(b, s)
-                ctx.ob("insert", "Pending names the least-recently connected node (nodes[0])", "Index>::index(self.nodes, 0).key" in t, s.loc(), t[-160:])
+                ctx.ob("insert", "Pending names the least-recently connected node (nodes[0])", "Index>::index(self.%s, 0).key" % F.nodes in t, s.loc(), t[-160:])
                 pw = cnt(b, [0], [s.bb], [x for x, _, _ in pend])
                 ctx.ob("insert", "result Pending <=> pending stored once", pw == (1, 1), s.loc(), str(pw))
     # --- Disconnected arm
-    rd = b.reachable(disc)
-    notfull_d = [t for (s_, t) in good if s_ in rd]
-    full_d = [t for (s_, t) in full if s_ in rd]
+    notfull_d = [t for (s_, t) in good if s_ in rd and s_ not in rc]
+    full_d = [t for (s_, t) in full if s_ in rd and s_ not in rc]
     g = cnt(b, full_d, rets, grow) if full_d else None
     w = cnt(b, full_d, rets, [s for s, _, _ in fx]) if full_d else None
     ctx.ob("insert", "Disconnected,full: nothing changes", g == (0, 0) and w == (0, 0), W, "growth %s boundary writes %s" % (g, w))
-    some = [t for (s_, t) in lib.switch_edges_on(b, r"^discr\(self\.first_connected_pos\)$", {"Some"}) if s_ in rd]
-    none = [t for (s_, t) in lib.switch_edges_on(b, r"^discr\(self\.first_connected_pos\)$", {"None"}) if s_ in rd]
+    some = [t for (s_, t) in fcp_some_edges(b, {"Some"}) if s_ in rd and s_ not in rc]
+    none = [t for (s_, t) in fcp_some_edges(b, {"None"}) if s_ in rd and s_ not in rc]
     ctx.ob("insert", "floor:Disconnected boundary test", len(some) == 1 and len(none) == 1, W, nontrivial=False, msg="%s %s" % (some, none))
     incs = [s for s, k, _ in fx if k == "inc"]
     others = [s for s, k, _ in fx if k not in ("inc", "set")]
@@ -158,12 +217,12 @@ def check_insert(ctx, b):
         e = b.site_expr(s)
         idx = e[2][1]
         src = render(b.init_expr(idx[1])) if idx[0] == "local" else render(idx)
-        ctx.ob("insert", "Disconnected: inserted exactly at the boundary index", src == "self.first_connected_pos@Some.0", s.loc(), "index = %s" % src)
-        ctx.ob("insert", "Disconnected: inserts the given node", render(e[2][2]) == "node", s.loc(), render(e[2][2]))
+        ctx.ob("insert", "Disconnected: inserted exactly at the boundary index", src == FCP + "@Some.0", s.loc(), "index = %s" % src)
+        ctx.ob("insert", "Disconnected: inserts the given node", render(e[2][2]) == NODE, s.loc(), render(e[2][2]))
         ctx.ob("insert", "Disconnected: insert only below capacity edge belongs to this arm", bool(notfull_d), s.loc(), "")
     for s in incs:
         l = s.stmt["p"]["l"]
-        ctx.ob("insert", "+= 1 targets the boundary", render(b.init_expr(l)) == "self.first_connected_pos@Some.0", s.loc(), render(b.init_expr(l)))
+        ctx.ob("insert", "+= 1 targets the boundary", render(b.init_expr(l)) == FCP + "@Some.0", s.loc(), render(b.init_expr(l)))
 
 
 # ------------------------------------------------------------------------------------------------ remove
@@ -173,34 +232,32 @@ def check_remove(ctx, prog, b):
     rm = nodes_calls(b, "remove")
     ctx.floor("remove", "Vec::remove", rm, 1, exact=True)
     ctx.ob("remove", "remove never grows nodes", not (nodes_calls(b, "push") + nodes_calls(b, "insert")), W, "")
-    fx = lk.field_effects(b, "first_connected_pos")
+    fx = lk.field_effects(b, F.fcp)
     ctx.floor("remove", "boundary writes", fx, 2)
     st = b.call_sites(KB + r"status$")
     ctx.floor("remove", "status call", st, 1, exact=True)
-    POS = "libp2p_kad::kbucket::bucket::KBucket::position(self, key)@Some.0"
+    POS = "libp2p_kad::kbucket::bucket::KBucket::position(self, #2)@Some.0"
     for s in rm:
         e = b.site_expr(s)
         ctx.ob("remove", "removes at position(key)", render(e[2][1]) == POS + ".0", s.loc(), render(e[2][1]))
-        ctx.guarded("remove", "removal only if the key was found", s, lambda c, r, l: l == "Some" and r == "discr(libp2p_kad::kbucket::bucket::KBucket::position(self, key))", "position(key) is Some")
+        ctx.guarded("remove", "removal only if the key was found", s, lambda c, r, l: l == "Some" and r == "discr(libp2p_kad::kbucket::bucket::KBucket::position(self, #2))", "position(key) is Some")
     for s in st:
         ctx.ob("remove", "status is taken at the removed position", render(b.site_expr(s)[2][1]) == POS, s.loc(), R(b, s)[:160])
         after = b.reachable(b.succ[s.bb])
         ok = all(x.bb in after and s.bb not in b.reachable(b.succ[x.bb]) and b.dominates(s.bb, x.bb) for x, _, _ in fx)
         ctx.ob("remove", "status is read before the boundary is adjusted", ok, s.loc(), "status() dominates every boundary write")
-    none_edge = tg(lib.switch_edges_on(b, r"^discr\(libp2p_kad::kbucket::bucket::KBucket::position\(self, key\)\)$", {"None"}))
+    none_edge = tg(lib.switch_edges_on(b, r"^discr\(libp2p_kad::kbucket::bucket::KBucket::position\(self, #2\)\)$", {"None"}))
     got = cnt(b, none_edge, rets, rm + [x for x, _, _ in fx]) if none_edge else None
     ctx.ob("remove", "unknown key: nothing changes", got == (0, 0), W, str(got))
-    known = lk.enum_known_edges(b, r"^libp2p_kad::kbucket::bucket::KBucket::status\(self, ", NS, ["Connected", "Disconnected"])
-    conn, disc = tg(known["Connected"]), tg(known["Disconnected"])
+    conn, disc = arms_of(b, r"^libp2p_kad::kbucket::bucket::KBucket::status\(self, ")
     ctx.ob("remove", "floor:status arms", len(conn) == 1 and len(disc) == 1, W, nontrivial=False, msg="%s %s" % (conn, disc))
     sets = [s for s, k, _ in fx if k == "set"]
     decs = [s for s, k, _ in fx if k == "dec"]
     other = [(k, t[:60]) for _, k, t in fx if k not in ("set", "dec")]
     ctx.ob("remove", "boundary written only by := None and -= 1", not other, W, str(other))
-    # Disconnected arm
     if disc:
-        some = [t for (s_, t) in lib.switch_edges_on(b, r"^discr\(self\.first_connected_pos\)$", {"Some"}) if s_ in b.reachable(disc)]
-        none = [t for (s_, t) in lib.switch_edges_on(b, r"^discr\(self\.first_connected_pos\)$", {"None"}) if s_ in b.reachable(disc)]
+        some = [t for (s_, t) in fcp_some_edges(b, {"Some"}) if s_ in b.reachable(disc)]
+        none = [t for (s_, t) in fcp_some_edges(b, {"None"}) if s_ in b.reachable(disc)]
         a = (cnt(b, some, rets, decs), cnt(b, some, rets, sets)) if some else None
         ctx.ob("remove", "Disconnected,Some: boundary -1 exactly once", a == ((1, 1), (0, 0)), W, "-=1, := : %s" % (a,))
         n_ = cnt(b, none, rets, [x for x, _, _ in fx]) if none else None
@@ -208,103 +265,106 @@ def check_remove(ctx, prog, b):
         ctx.ob("remove", "Disconnected: no decrement outside this arm", all(s.bb in b.reachable(disc) and s.bb not in b.reachable(conn) for s in decs) and bool(decs), W, "")
     for s in decs:
         l = s.stmt["p"]["l"]
-        ctx.ob("remove", "-= 1 targets the boundary", render(b.init_expr(l)) == "self.first_connected_pos@Some.0", s.loc(), render(b.init_expr(l)))
-    # Connected arm
+        ctx.ob("remove", "-= 1 targets the boundary", render(b.init_expr(l)) == FCP + "@Some.0", s.loc(), render(b.init_expr(l)))
     if conn:
         rc = b.reachable(conn)
         ctx.ob("remove", "Connected: boundary only ever cleared", all(s.bb in rc and s.bb not in b.reachable(disc) for s in sets) and len(sets) == 1, W, "%d := sites" % len(sets))
+        at_b = set()
+        closures = []
+        for bi in b.live:
+            info = b.switch_info(bi)
+            if not info:
+                continue
+            c = info[0]
+            if c[0] == "call" and strip_generics(c[1]).endswith("Option::is_some_and") and render(c[2][0]) == FCP:
+                at_b |= {(bi, t) for t, ls in info[1].items() if ls == {"true"}}
+                closures.append(c)
+            elif lk.cmp_norm(c, "^" + re.escape(FCP) + r"@Some\.0$", "^" + re.escape(POS + ".0") + "$") == "Eq" or lk.cmp_norm(c, "^" + re.escape(FCP) + "$", "^" + re.escape("std::option::Option::Some{0: %s.0}" % POS) + "$") == "Eq":
+                # `if let Some(p) = fcp && p == pos` style
+                at_b |= {(bi, t) for t, ls in info[1].items() if ls == {"true"}}
+        last = set()
+        for bi in b.live:
+            info = b.switch_info(bi)
+            if not info:
+                continue
+            op = lk.cmp_norm(info[0], "^" + re.escape(POS + ".0") + "$", LEN)
+            if op is None:
+                continue
+            lens = [c[3] for c in mir.calls_in(info[0], r"Vec::len$")]
+            if not all(l in b.reachable(b.succ[rm[0].bb]) for l in lens):
+                continue
+            for t, ls in info[1].items():
+                if (ls == {"true"} and op == "Eq") or (ls == {"false"} and op == "Ne"):
+                    last.add((bi, t))
         for s in sets:
             ctx.ob("remove", "Connected: boundary := None", R(b, s) == "std::option::Option::None{}", s.loc(), R(b, s))
-            at_b = lib.switch_edges_on(b, r"^std::option::Option::is_some_and\(self\.first_connected_pos, closure:", {"true"})
-            ok = bool(at_b) and b.must_pass_edges(s.bb, at_b)
-            ctx.ob("remove", "Connected: boundary cleared only if removed node was at the boundary", ok, s.loc(), "is_some_and(|p| p == pos) true edge")
-            last = set()
-            for bi in b.live:
-                info = b.switch_info(bi)
-                if not info or info[0][0] != "bin" or info[0][1] != "Eq":
-                    continue
-                ops = {render(info[0][2]), render(info[0][3])}
-                if ops == {POS + ".0", "std::vec::Vec::len(self.nodes)"}:
-                    lens = [c[3] for c in mir.calls_in(info[0], r"Vec::len$")]
-                    if all(l in b.reachable(b.succ[rm[0].bb]) for l in lens):
-                        last |= {(bi, t) for t, ls in info[1].items() if ls == {"true"}}
-            ok = bool(last) and b.must_pass_edges(s.bb, last)
-            ctx.ob("remove", "Connected: boundary cleared only if removed node was last", ok, s.loc(), "pos == nodes.len() measured after the removal")
+            ctx.ob("remove", "Connected: boundary cleared only if removed node was at the boundary", lk.passes(b, s.bb, at_b), s.loc(), "first_connected_pos == Some(pos) edge")
+            ctx.ob("remove", "Connected: boundary cleared only if removed node was last", lk.passes(b, s.bb, last), s.loc(), "pos == nodes.len() measured after the removal")
             both = [t for (_, t) in last]
             got = cnt(b, both, rets, sets) if both else None
             ctx.ob("remove", "Connected: at the boundary and last => boundary cleared", got == (1, 1), s.loc(), str(got))
-        for bi in lk.switch_blocks(b, r"^std::option::Option::is_some_and\(self\.first_connected_pos, closure:"):
-            for cb, rs in lk.closure_ret(prog, b, b.switch_info(bi)[0]):
-                ok = rs in (["Eq(p, ^pos.0)"], ["Eq(^pos.0, p)"]) or (len(rs) == 1 and re.match(r"^Eq\((\w+), \^pos\.0\)$|^Eq\(\^pos\.0, (\w+)\)$", rs[0]) is not None)
+        for c in closures:
+            for cb, rs in lk.closure_ret(prog, b, c):
+                rs_e = [cb.site_expr(x) for x in lk.ret_sites(cb)]
+                ok = len(rs_e) == 1 and lk.cmp_norm(rs_e[0], r"^#2$", r"^\^0$") == "Eq"
                 ctx.ob("remove", "Connected: closure tests boundary == removed position", ok, lk.where(cb), str(rs))
-                ctx.ob("remove", "Connected: closure captures the removed position", "closure:" in render(b.switch_info(bi)[0]) and ("[" + POS + ".0]") in render(b.switch_info(bi)[0]), lk.where(cb), render(b.switch_info(bi)[0])[-140:])
+                ctx.ob("remove", "Connected: closure captures the removed position", render(c).endswith("[" + POS + ".0])"), lk.where(cb), render(c)[-140:])
     for s in lk.ret_sites(b):
-        t = R(b, s)
-        if "Option::Some" in t:
-            ok = re.search(r"tuple\{0: std::vec::Vec::remove\(self\.nodes, .*\), 1: libp2p_kad::kbucket::bucket::KBucket::status\(self, .*\), 2: " + re.escape(POS) + r"\}", t) is not None
-            ctx.ob("remove", "returns (removed node, prior status, position)", ok, s.loc(), t[-200:])
+        e = b.site_expr(s)
+        if e[0] == "agg" and e[3] == "Some":
+            tup = dict(e[4][0][1][4]) if e[4][0][1][0] == "agg" else {}
+            ok = (render(tup.get("0", ("unknown", "?"))).startswith("std::vec::Vec::remove(self.%s, " % F.nodes)
+                  and render(tup.get("1", ("unknown", "?"))) == "libp2p_kad::kbucket::bucket::KBucket::status(self, %s)" % POS and render(tup.get("2", ("unknown", "?"))) == POS)
+            ctx.ob("remove", "returns (removed node, prior status, position)", ok, s.loc(), render(e)[-200:])
 
 
 # ------------------------------------------------------------------------------------------------ apply_pending
 def check_apply(ctx, prog, b):
     rets = b.return_blocks()
     W = lk.where(b)
-    PEND = r"std::option::Option::take\(self\.pending\)@Some\.0"
+    PEND = r"std::option::Option::take\(self\.%s\)@Some\.0" % F.pending
+    PENDT = "std::option::Option::take(self.%s)@Some.0" % F.pending
     rm, pushes, inserts = nodes_calls(b, "remove"), nodes_calls(b, "push"), nodes_calls(b, "insert")
     ctx.floor("apply_pending", "evictions (Vec::remove)", rm, 3)
     ctx.floor("apply_pending", "insertions (push/insert)", pushes + inserts, 3)
-    fx = lk.field_effects(b, "first_connected_pos")
+    fx = lk.field_effects(b, F.fcp)
     ctx.floor("apply_pending", "boundary writes", fx, 1)
-    take = lk.recv_calls(b, r"Option::take$", r"^self\.pending$")
+    take = lk.recv_calls(b, r"Option::take$", r"^self\.%s$" % F.pending)
     ctx.floor("apply_pending", "pending.take()", take, 1, exact=True)
-
-    def timeout_edge(c, r, l):
-        if re.search(r"PartialOrd::le\(" + PEND + r"\.replace, web_time::Instant::now\(\)\)$", r) or re.search(r"PartialOrd::ge\(web_time::Instant::now\(\), " + PEND + r"\.replace\)$", r):
-            return l == "true"
-        if re.search(r"PartialOrd::gt\(" + PEND + r"\.replace, web_time::Instant::now\(\)\)$", r) or re.search(r"PartialOrd::lt\(web_time::Instant::now\(\), " + PEND + r"\.replace\)$", r):
-            return l == "false"
-        return False
-
-    full = lib.at_limit_edges(b, LEN, CAP)
-    full = {(s, t) for (s, t) in full if not any(render(b.switch_info(s)[0]).startswith(x) for x in ("Eq", "Ne"))}
+    REPL, NOW = "^" + PEND + r"\.%s$" % F.p_replace, r"^web_time::Instant::now\(\)$"
+    expired = lk.hoisted(b, lk.rel_edges(b, REPL, NOW, "<="))
+    early = lk.rel_edges(b, REPL, NOW, ">")
+    full = lk.hoisted(b, lk.rel_edges(b, LEN, CAP, ">=") - lk.rel_edges(b, LEN, CAP, "=="))
     head = lk.enum_known_edges(b, r"^libp2p_kad::kbucket::bucket::KBucket::status\(self, libp2p_kad::kbucket::bucket::Position::Position\{0: 0\}\)$", NS, ["Connected", "Disconnected"])
     for s in rm:
         e = b.site_expr(s)
-        ctx.ob("apply_pending", "evicts the least-recently connected node (index 0)", e[2][1][0] == "const" and e[2][1][1] == 0, s.loc(), "Vec::remove index = %s" % render(e[2][1]))
-        ctx.guarded("apply_pending", "eviction only after timeout", s, timeout_edge, "pending.replace <= Instant::now()")
-        ctx.ob("apply_pending", "eviction only if bucket full", bool(full) and b.must_pass_edges(s.bb, full), s.loc(), "nodes.len() >= capacity edge")
-        ctx.ob("apply_pending", "eviction only if head not Connected", bool(head["Disconnected"]) and b.must_pass_edges(s.bb, head["Disconnected"]), s.loc(),
+        ctx.ob("apply_pending", "evicts the least-recently connected node (index 0)", lk.const_val(e[2][1]) == 0, s.loc(), "Vec::remove index = %s" % render(e[2][1]))
+        ctx.ob("apply_pending", "eviction only after timeout", lk.passes(b, s.bb, expired), s.loc(), "pending.replace <= Instant::now() on every path")
+        ctx.ob("apply_pending", "eviction only if bucket full", lk.passes(b, s.bb, full), s.loc(), "nodes.len() >= capacity edge")
+        ctx.ob("apply_pending", "eviction only if head not Connected", lk.passes(b, s.bb, head["Disconnected"]), s.loc(),
                "status(Position(0)) == Connected is false on every path")
     for s in pushes + inserts:
         ctx.ob("apply_pending", "direct insertion only after an eviction", b.must_pass_nodes([0], [s.bb], lib.bbs(rm)), s.loc(), "every path to this push/insert passes Vec::remove(nodes, 0)")
         node = render(b.site_expr(s)[2][-1])
-        ctx.ob("apply_pending", "inserted node is the pending node", re.match("^" + PEND + r"\.node$", node) is not None, s.loc(), node)
-    # head Connected => nothing happens
+        ctx.ob("apply_pending", "inserted node is the pending node", node == PENDT + "." + F.p_node, s.loc(), node)
     hc = tg(head["Connected"])
     got = cnt(b, hc, rets, rm + pushes + inserts + [x for x, _, _ in fx]) if hc else None
     ctx.ob("apply_pending", "head still Connected: bucket unchanged", got == (0, 0), W, str(got))
-    # not expired => restored
-    pend = lk.field_effects(b, "pending")
-    restore = [s for s, k, t in pend if k == "set" and re.match(r"^std::option::Option::Some\{0: " + PEND + r"\}$", t)]
+    pend = lk.field_effects(b, F.pending)
+    restore = [s for s, k, t in pend if k == "set" and t == "std::option::Option::Some{0: %s}" % PENDT]
     ctx.floor("apply_pending", "restore of unexpired pending", restore, 1)
-    early = set()
-    for bi in b.live:
-        info = b.switch_info(bi)
-        if info:
-            r = render(info[0])
-            for t, ls in info[1].items():
-                if ls and all((not timeout_edge(info[0], r, l)) and timeout_edge(info[0], r, "true" if l == "false" else "false") for l in ls):
-                    early.add((bi, t))
     ee = tg(early)
     ctx.ob("apply_pending", "floor:not-yet-expired edge", len(ee) == 1, W, nontrivial=False, msg=str(ee))
     if ee:
         got = cnt(b, ee, rets, restore), cnt(b, ee, rets, rm + pushes + inserts + [x for x, _, _ in fx])
         ctx.ob("apply_pending", "unexpired pending node is put back, bucket unchanged", got == ((1, 1), (0, 0)), W, "restore %s, mutations %s" % got)
+        exp_reach = b.reachable(tg(expired))
         for s in lk.ret_sites(b):
-            if s.bb in b.reachable(ee) and not any(s.bb in b.reachable([x]) for x in tg(lib.switch_edges_on(b, r"PartialOrd::(le|ge|lt|gt)\(", {"true", "false"}) - early)):
+            if s.bb in b.reachable(ee) and s.bb not in exp_reach:
                 ctx.ob("apply_pending", "unexpired: returns None", R(b, s) == "std::option::Option::None{}", s.loc(), R(b, s)[:80])
-    # arms after the head test
-    ps = lk.enum_known_edges(b, "^" + PEND + r"\.status$", NS, ["Connected", "Disconnected"])
+        vals = {R(b, s) for s in lk.ret_sites(b) if s.bb in b.reachable(ee)}
+        ctx.ob("apply_pending", "unexpired: no AppliedPending is reported", not any("AppliedPending" in v for v in vals) or all(s.bb in exp_reach for s in lk.ret_sites(b) if "AppliedPending" in R(b, s)), W, "")
+    ps = lk.enum_known_edges(b, "^" + PEND + r"\.%s$" % F.p_status, NS, ["Connected", "Disconnected"])
     pc, pd = tg(ps["Connected"]), tg(ps["Disconnected"])
     ctx.ob("apply_pending", "floor:pending status arms", len(pc) == 1 and len(pd) == 1, W, nontrivial=False, msg="%s %s" % (pc, pd))
     if pc:
@@ -315,22 +375,49 @@ def check_apply(ctx, prog, b):
             ctx.ob("apply_pending", "boundary written only in the connected-pending arm", inarm, s.loc(), "%s %s" % (k, t[:120]))
             if not inarm:
                 continue
-            ok = k == "set" and re.match(r"^std::option::Option::map_or_else\(self\.first_connected_pos, closure:.*\[self\.nodes\], closure:.*\[\]\)$", t) is not None
+            e = b.site_expr(s)
+            if k == "set" and not (e[0] == "call" and strip_generics(e[1]).endswith("Option::map_or_else")):
+                # `match fcp { None => Some(len), Some(p) => p.checked_sub(1) }` form: one store per arm
+                P0 = re.escape(FCP + "@Some.0")
+                vals = []       # (bb of the definition, rendered value): the store itself, or the arms feeding a match-result temporary
+                if e[0] == "local":
+                    for d in b.defs.get(e[1], []):
+                        vals.append((d[1], render(b.rvalue_expr(d[3])) if d[0] == "stmt" else render(b.call_expr(d[3], d[1]))))
+                else:
+                    vals.append((s.bb, t))
+                seen_l = set()
+                for vb, vt in vals:
+                    gs = {g[0]: g[1] for g in b.guards_on_all_paths(vb)}
+                    lab = gs.get("discr(%s)" % FCP)
+                    if lab == frozenset(["None"]):
+                        seen_l.add("None")
+                        ok = vt == "std::option::Option::Some{0: std::vec::Vec::len(self.%s)}" % F.nodes and all(b.dominates(x.bb, vb) for x in rm if x.bb in b.reachable(pc))
+                        ctx.ob("apply_pending", "connected pending: no connected node before => boundary = Some(len after eviction)", ok, s.loc(), vt[:160])
+                    elif lab == frozenset(["Some"]):
+                        seen_l.add("Some")
+                        ok = re.match(r"^(core::num::checked_sub\(%s, 1\)|std::option::Option::Some\{0: Sub(WithOverflow)?\(%s, 1\)(\.0)?\})$" % (P0, P0), vt) is not None
+                        ctx.ob("apply_pending", "connected pending: boundary moves down by one", ok, s.loc(), vt[:160])
+                    else:
+                        ctx.ob("apply_pending", "connected pending: boundary := fcp.map_or_else(len, p-1)", False, s.loc(), "unrecognised boundary update %s" % vt[:160])
+                ctx.ob("apply_pending", "connected pending: boundary := fcp.map_or_else(len, p-1)", seen_l == {"None", "Some"} or e[0] != "local", s.loc(), "match form, arms %s" % sorted(seen_l))
+                continue
+            ok = k == "set" and e[0] == "call" and strip_generics(e[1]).endswith("Option::map_or_else") and render(e[2][0]) == FCP
             ctx.ob("apply_pending", "connected pending: boundary := fcp.map_or_else(len, p-1)", ok, s.loc(), t[:200])
-            cr = lk.closure_ret(prog, b, b.site_expr(s))
+            cr = lk.closure_ret(prog, b, e)
             if len(cr) == 2:
-                ctx.ob("apply_pending", "connected pending: no connected node before => boundary = Some(len after eviction)", cr[0][1] == ["std::option::Option::Some{0: std::vec::Vec::len(^*self.nodes)}"], lk.where(cr[0][0]), str(cr[0][1]))
-                ctx.ob("apply_pending", "connected pending: boundary moves down by one", len(cr[1][1]) == 1 and re.match(r"^core::num::checked_sub\(\w+, 1\)$", cr[1][1][0]) is not None, lk.where(cr[1][0]), str(cr[1][1]))
+                caps = [render(x) for x in e[2][1][2]] if e[2][1][0] == "closure" else []
+                ctx.ob("apply_pending", "connected pending: no connected node before => boundary = Some(len after eviction)", cr[0][1] == ["std::option::Option::Some{0: std::vec::Vec::len(^0)}"] and caps == ["self.%s" % F.nodes], lk.where(cr[0][0]), "%s capturing %s" % (cr[0][1], caps))
+                ctx.ob("apply_pending", "connected pending: boundary moves down by one", cr[1][1] in (["core::num::checked_sub(#2, 1)"], ["std::option::Option::Some{0: SubWithOverflow(#2, 1).0}"], ["std::option::Option::Some{0: Sub(#2, 1)}"]), lk.where(cr[1][0]), str(cr[1][1]))
             else:
                 ctx.ob("apply_pending", "connected pending: boundary closures found", False, s.loc(), "%d closures" % len(cr))
-            mo = [c[3] for c in mir.calls_in(b.site_expr(s), r"Option::map_or_else$")]
+            mo = [c[3] for c in mir.calls_in(e, r"Option::map_or_else$")]
             r_in = [x.bb for x in rm if x.bb in b.reachable(pc)]
             p_in = [x.bb for x in pushes if x.bb in b.reachable(pc)]
             ok = bool(mo) and bool(r_in) and bool(p_in) and all(b.dominates(r, m) and b.dominates(m, p) and m not in (r, p) for m in mo for r in r_in for p in p_in)
             ctx.ob("apply_pending", "connected pending: boundary computed between the eviction and the push", ok, s.loc(), "remove %s < map_or_else %s < push %s" % (r_in, mo, p_in))
     if pd:
-        some = [t for (s_, t) in lib.switch_edges_on(b, r"^discr\(self\.first_connected_pos\)$", {"Some"}) if s_ in b.reachable(pd)]
-        none = [t for (s_, t) in lib.switch_edges_on(b, r"^discr\(self\.first_connected_pos\)$", {"None"}) if s_ in b.reachable(pd)]
+        some = [t for (s_, t) in fcp_some_edges(b, {"Some"}) if s_ in b.reachable(pd)]
+        none = [t for (s_, t) in fcp_some_edges(b, {"None"}) if s_ in b.reachable(pd)]
         ctx.ob("apply_pending", "floor:disconnected pending boundary test", len(some) == 1 and len(none) == 1, W, nontrivial=False, msg="%s %s" % (some, none))
         w = cnt(b, pd, rets, [x for x, _, _ in fx])
         ctx.ob("apply_pending", "disconnected pending, some connected: boundary not written", w == (0, 0), W,
@@ -341,35 +428,34 @@ def check_apply(ctx, prog, b):
         if none:
             a = cnt(b, none, rets, rm), cnt(b, none, rets, pushes), cnt(b, none, rets, inserts)
             ctx.ob("apply_pending", "disconnected pending, none connected: one eviction, one push", a == ((1, 1), (1, 1), (0, 0)), W, "remove %s push %s insert %s" % a)
+        B0 = re.escape(FCP + "@Some.0")
         for s in inserts:
             idx = render(b.site_expr(s)[2][1])
-            ok = re.match(r"^std::option::Option::expect\(core::num::checked_sub\(self\.first_connected_pos@Some\.0, 1\), .*\)$|^SubWithOverflow\(self\.first_connected_pos@Some\.0, 1\)\.0$|^Sub\(self\.first_connected_pos@Some\.0, 1\)$", idx) is not None
+            ok = re.match(r"^std::option::Option::(expect|unwrap)\(core::num::checked_sub\(%s, 1\)(, .*)?\)$|^SubWithOverflow\(%s, 1\)\.0$|^Sub\(%s, 1\)$|^core::num::(saturating|wrapping)_sub\(%s, 1\)$" % (B0, B0, B0, B0), idx) is not None
             ctx.ob("apply_pending", "disconnected pending: inserted at boundary - 1 (end of the shifted disconnected prefix)", ok, s.loc(), idx)
             r_in = [x.bb for x in rm if x.bb in b.reachable(some)]
             ctx.ob("apply_pending", "disconnected pending: eviction precedes the positional insert", bool(r_in) and all(b.dominates(r, s.bb) for r in r_in), s.loc(), "")
-    # room in the bucket
-    room, _ = lib.strict_limit_edges(b, LEN, CAP)
+    room = lk.hoisted(b, lk.rel_edges(b, LEN, CAP, "<"))
     ic = b.call_sites(KB + r"insert$")
     ctx.floor("apply_pending", "self.insert on the room edge", ic, 1)
     for s in ic:
-        ctx.ob("apply_pending", "room: delegated insert only below capacity", bool(room) and b.must_pass_edges(s.bb, room), s.loc(), "")
-        ctx.guarded("apply_pending", "room: delegated insert only after timeout", s, timeout_edge, "pending.replace <= now")
+        ctx.ob("apply_pending", "room: delegated insert only below capacity", lk.passes(b, s.bb, room), s.loc(), "")
+        ctx.ob("apply_pending", "room: delegated insert only after timeout", lk.passes(b, s.bb, expired), s.loc(), "pending.replace <= now")
         e = b.site_expr(s)
-        ok = re.match("^" + PEND + r"\.node$", render(e[2][1])) and re.match("^" + PEND + r"\.status$", render(e[2][2]))
+        ok = render(e[2][1]) == PENDT + "." + F.p_node and render(e[2][2]) == PENDT + "." + F.p_status
         ctx.ob("apply_pending", "room: inserts the pending node with its own status", bool(ok), s.loc(), R(b, s)[-160:])
     rt = tg(room)
     if rt:
         got = cnt(b, rt, rets, rm + pushes + inserts + [x for x, _, _ in fx])
         ctx.ob("apply_pending", "room: no eviction", got == (0, 0), W, str(got))
-    # results
     for s in lk.ret_sites(b):
         t = R(b, s)
         if "AppliedPending" not in t:
             continue
-        ok = re.search(r"inserted: libp2p_kad::<kbucket::bucket::Node as std::clone::Clone>::clone\(" + PEND + r"\.node\)", t) is not None
+        ok = "inserted: libp2p_kad::<kbucket::bucket::Node as std::clone::Clone>::clone(%s.%s)" % (PENDT, F.p_node) in t
         ctx.ob("apply_pending", "reports the pending node as inserted", ok, s.loc(), t[-220:])
         ev = cnt(b, [0], [s.bb], rm)
-        if "evicted: std::option::Option::Some{0: std::vec::Vec::remove(self.nodes, 0)}" in t:
+        if "evicted: std::option::Option::Some{0: std::vec::Vec::remove(self.%s, 0)}" % F.nodes in t:
             ctx.ob("apply_pending", "reported eviction <=> a node was removed", ev == (1, 1), s.loc(), str(ev))
         else:
             ctx.ob("apply_pending", "no reported eviction <=> nothing removed", ev == (0, 0) and "evicted: std::option::Option::None{}" in t, s.loc(), "%s %s" % (ev, t[-80:]))
@@ -378,7 +464,6 @@ def check_apply(ctx, prog, b):
     for s in rm:
         got = cnt(b, b.succ[s.bb], rets, some_ret)
         ctx.ob("apply_pending", "every eviction is reported", got == (1, 1), s.loc(), str(got))
-    # pending slot is cleared whenever applied or dropped: only restore writes pending
     others = [(k, t[:80]) for s, k, t in pend if not (k == "set" and s in restore) and not (k.startswith("call:") and k.endswith("Option::take"))]
     ctx.ob("apply_pending", "pending slot only taken and (if unexpired) restored", not others, W, str(others))
 
@@ -386,71 +471,93 @@ def check_apply(ctx, prog, b):
 # ------------------------------------------------------------------------------------------------ status / update
 def check_status(ctx, prog, b):
     W = lk.where(b)
-    sw = lk.switch_blocks(b, r"^std::option::Option::is_some_and\(self\.first_connected_pos, closure:")
-    ctx.ob("status", "floor:is_some_and(first_connected_pos, ..) dispatch", len(sw) == 1, W, nontrivial=False, msg=str(sw))
+    sw = []
+    for bi in sorted(b.live):
+        info = b.switch_info(bi)
+        if info and info[0][0] == "call" and strip_generics(info[0][1]).endswith("Option::is_some_and") and render(info[0][2][0]) == FCP:
+            sw.append(bi)
+    if not sw:
+        # `match fcp { Some(i) if pos.0 >= i => Connected, _ => Disconnected }` / `if let Some(i) = fcp && pos.0 >= i` form
+        conn_e = lk.rel_edges(b, r"^#2\.0$", "^" + re.escape(FCP) + r"@Some\.0$", ">=")
+        ctx.ob("status", "floor:pos >= boundary test", len(conn_e) == 1, W, nontrivial=False, msg=str(conn_e))
+        C_, D_ = "libp2p_kad::kbucket::bucket::NodeStatus::Connected{}", "libp2p_kad::kbucket::bucket::NodeStatus::Disconnected{}"
+        for s in lk.ret_sites(b):
+            if R(b, s) == C_:
+                ctx.ob("status", "pos >= boundary is ['true'] => Connected{}", lk.passes(b, s.bb, conn_e), s.loc(), "Connected only where fcp is Some(i) and pos >= i")
+        below = lk.rel_edges(b, r"^#2\.0$", "^" + re.escape(FCP) + r"@Some\.0$", "<") | fcp_some_edges(b, {"None"})
+        for s in lk.ret_sites(b):
+            if R(b, s) == D_:
+                ctx.ob("status", "closure is pos >= boundary", lk.passes(b, s.bb, below), s.loc(), "Disconnected only where there is no connected node or pos < boundary (a `>` test would misreport the node at the boundary)")
+        vals = {R(b, s) for s in lk.ret_sites(b) if s.bb in b.reachable(tg(conn_e))} if conn_e else set()
+        ctx.ob("status", "pos >= boundary is ['false'] => Disconnected{}", vals == {C_} and {R(b, s) for s in lk.ret_sites(b)} == {C_, D_}, W, "pos >= boundary always yields Connected: %s" % sorted(vals))
+    else:
+        ctx.ob("status", "floor:is_some_and(first_connected_pos, ..) dispatch", len(sw) == 1, W, nontrivial=False, msg=str(sw))
     for bi in sw:
         cond, labs = b.switch_info(bi)
-        ctx.ob("status", "closure captures pos.0", render(cond).endswith("[pos.0])"), W, render(cond)[-60:])
+        ctx.ob("status", "closure captures pos.0", render(cond).endswith("[#2.0])"), W, render(cond)[-60:])
         for cb, rs in lk.closure_ret(prog, b, cond):
-            ok = len(rs) == 1 and re.match(r"^Ge\(\^pos\.0, \w+\)$|^Le\(\w+, \^pos\.0\)$", rs[0]) is not None
+            es = [cb.site_expr(x) for x in lk.ret_sites(cb)]
+            ok = len(es) == 1 and lk.cmp_norm(es[0], r"^\^0$", r"^#2$") == "Ge"
             ctx.ob("status", "closure is pos >= boundary", ok, lk.where(cb), str(rs))
         for t, ls in labs.items():
             vals = {R(b, s) for s in lk.ret_sites(b) if s.bb in b.reachable([t])}
             want = "libp2p_kad::kbucket::bucket::NodeStatus::Connected{}" if ls == {"true"} else "libp2p_kad::kbucket::bucket::NodeStatus::Disconnected{}"
             ctx.ob("status", "pos >= boundary is %s => %s" % (sorted(ls), want.split("::")[-1]), vals == {want}, W, str(sorted(vals)))
-    it = ctx.body(K, KB + r"iter::\{closure#0\}$")
-    rs = [R(it, s) for s in lk.ret_sites(it)]
-    ok = len(rs) == 1 and re.match(r"^tuple\{0: arg2\.1, 1: libp2p_kad::kbucket::bucket::KBucket::status\(\^self, libp2p_kad::kbucket::bucket::Position::Position\{0: arg2\.0\}\)\}$", rs[0]) is not None
-    ctx.ob("status", "iter(): each node is reported with the status of its own position", ok, lk.where(it), str(rs)[:200])
+    its = [c for c in prog.bodies(K) if c.kind == "closure" and lk.root_fn(prog, c).npath == "libp2p_kad::kbucket::bucket::KBucket::iter"]
+    rs = [R(it, s) for it in its for s in lk.ret_sites(it)]
+    ok = len(rs) == 1 and re.match(r"^tuple\{0: #2\.1, 1: libp2p_kad::kbucket::bucket::KBucket::status\(\^0, libp2p_kad::kbucket::bucket::Position::Position\{0: #2\.0\}\)\}$", rs[0]) is not None
+    ctx.ob("status", "iter(): each node is reported with the status of its own position", ok, lk.where(its[0]) if its else "", str(rs)[:200])
 
 
 def check_update(ctx, b):
+    KEYA = lk.arg_of_type(b, r"TKey$")
+    STAT = lk.arg_of_type(b, r"NodeStatus$")
     W = lk.where(b)
     rmc = b.call_sites(KB + r"remove$")
     ic = b.call_sites(KB + r"insert$")
     ctx.floor("update", "remove + insert", rmc + ic, 2)
+    RM = "libp2p_kad::kbucket::bucket::KBucket::remove(self, %s)" % KEYA
+    found = lib.switch_edges_on(b, "^discr\\(" + re.escape(RM) + "\\)$", {"Some"})
     for s in ic:
         e = b.site_expr(s)
-        ok = render(e[2][1]) == "libp2p_kad::kbucket::bucket::KBucket::remove(self, key)@Some.0.0" and render(e[2][2]) == "status"
+        ok = render(e[2][1]) == RM + "@Some.0.0" and render(e[2][2]) == STAT
         ctx.ob("update", "re-inserts the removed node with the new status", ok, s.loc(), R(b, s)[-200:])
-        ctx.ob("update", "re-insert only after the removal succeeded", bool(rmc) and b.must_pass_edges(s.bb, lib.switch_edges_on(b, r"^discr\(libp2p_kad::kbucket::bucket::KBucket::remove\(self, key\)\)$", {"Some"})), s.loc(), "")
-    some = tg(lib.switch_edges_on(b, r"^discr\(libp2p_kad::kbucket::bucket::KBucket::remove\(self, key\)\)$", {"Some"}))
+        ctx.ob("update", "re-insert only after the removal succeeded", bool(rmc) and lk.passes(b, s.bb, found), s.loc(), "")
+    some = tg(found)
     if some:
         got = cnt(b, some, b.return_blocks(), ic)
         ctx.ob("update", "a found node is re-inserted exactly once", got == (1, 1), W, str(got))
-    pend = lk.field_effects(b, "pending")
+    pend = lk.field_effects(b, F.pending)
     ctx.floor("update", "pending := None", pend, 1)
-    st = lk.enum_known_edges(b, r"^status$", NS, ["Connected", "Disconnected"])
+    st = lk.enum_known_edges(b, "^" + STAT + "$", NS, ["Connected", "Disconnected"])
+    head = lk.rel_edges(b, "^" + re.escape(RM) + r"@Some\.0\.2(\.0)?$", r"^(libp2p_kad::kbucket::bucket::Position::Position\{0: 0\}|0)$", "==")
     for s, k, t in pend:
         ctx.ob("update", "pending only ever dropped here", k == "set" and t == "std::option::Option::None{}", s.loc(), "%s %s" % (k, t[:80]))
-        ctx.guarded("update", "pending dropped only if the head (Position(0)) was updated", s,
-                    lambda c, r, l: l == "true" and re.search(r"Position as std::cmp::PartialEq>::eq\(libp2p_kad::kbucket::bucket::KBucket::remove\(self, key\)@Some\.0\.2, libp2p_kad::kbucket::bucket::Position::Position\{0: 0\}\)$", r) is not None,
-                    "pos == Position(0)")
-        ctx.ob("update", "pending dropped only if the head became Connected", bool(st["Connected"]) and b.must_pass_edges(s.bb, st["Connected"]), s.loc(), "status == Connected")
+        ctx.ob("update", "pending dropped only if the head (Position(0)) was updated", lk.passes(b, s.bb, head), s.loc(), "pos == Position(0)")
+        ctx.ob("update", "pending dropped only if the head became Connected", lk.passes(b, s.bb, st["Connected"]), s.loc(), "status == Connected")
 
 
 # ------------------------------------------------------------------------------------------------ table level
 def check_table(ctx, prog):
-    DIST = r"libp2p_kad::kbucket::key::KeyBytes::distance\(std::convert::AsRef::as_ref\(self\.local_key\), key\)"
+    DIST = r"libp2p_kad::kbucket::key::KeyBytes::distance\(std::convert::AsRef::as_ref\(self\.%s\), #2\)" % F.local_key
     NEW = r"libp2p_kad::kbucket::BucketIndex::new\(" + DIST + r"\)"
+    BUCKETS = "self.%s" % F.buckets
     for fn in ("entry", "bucket"):
         b = ctx.body(K, r"^libp2p_kad::kbucket::KBucketsTable::%s$" % fn)
         W = lk.where(b)
-        idx = [s for s in b.call_sites(r"Index(Mut)?>::index(_mut)?$") if render(b.site_expr(s)[2][0]) == "self.buckets"]
+        idx = [s for s in b.call_sites(r"Index(Mut)?>::index(_mut)?$") if render(b.site_expr(s)[2][0]) == BUCKETS]
         ctx.floor("table", fn + ": buckets[..]", idx, 1, exact=True)
         ap = b.call_sites(KB + r"apply_pending$")
         ctx.floor("table", fn + ": apply_pending", ap, 1, exact=True)
+        known = lib.switch_edges_on(b, r"^discr\(" + NEW + r"\)$", {"Some"}) | lib.switch_edges_on(b, r"^discr\(<std::option::Option as std::ops::Try>::branch\(" + NEW + r"\)\)$", {"Continue"})
         for s in idx:
             i = render(b.site_expr(s)[2][1])
-            ok = re.match(r"^libp2p_kad::kbucket::BucketIndex::get\(<std::option::Option as std::ops::Try>::branch\(" + NEW + r"\)@Continue\.0\)$|^" + NEW + r"@Some\.0\.0$|^libp2p_kad::kbucket::BucketIndex::get\(" + NEW + r"@Some\.0\)$", i) is not None
+            ok = re.match(r"^(<std::option::Option as std::ops::Try>::branch\(" + NEW + r"\)@Continue|" + NEW + r"@Some)\.0\.0$", i) is not None
             ctx.ob("table", fn + ": bucket index = BucketIndex::new(distance(local_key, key))", ok, s.loc(), i[:240])
-            ctx.guarded("table", fn + ": no bucket is touched for the local key (index None)", s,
-                        lambda c, r, l: (l == "Continue" and re.match(r"^discr\(<std::option::Option as std::ops::Try>::branch\(" + NEW + r"\)\)$", r) is not None)
-                        or (l == "Some" and re.match(r"^discr\(" + NEW + r"\)$", r) is not None), "BucketIndex::new(..) is Some")
+            ctx.ob("table", fn + ": no bucket is touched for the local key (index None)", lk.passes(b, s.bb, known), s.loc(), "BucketIndex::new(..) is Some on every path")
         for s in ap:
             ok = all(render(b.site_expr(s)[2][0]) == R(b, x) for x in idx)
             ctx.ob("table", fn + ": pending entry applied on the selected bucket", ok, s.loc(), R(b, s)[:120])
-        # the None case returns None
         none_edges = lib.switch_edges_on(b, r"^discr\(" + NEW + r"\)$", {"None"}) | lib.switch_edges_on(b, r"^discr\(<std::option::Option as std::ops::Try>::branch\(" + NEW + r"\)\)$", {"Break"})
         nt = tg(none_edges)
         ctx.ob("table", fn + ": floor:local-key edge", len(nt) == 1, W, nontrivial=False, msg=str(nt))
@@ -462,90 +569,118 @@ def check_table(ctx, prog):
             ctx.floor("table", "entry: Entry::new", en, 1, exact=True)
             for s in en:
                 e = b.site_expr(s)
-                ok = all(render(e[2][0]) == R(b, x) for x in idx) and render(e[2][1]) == "key"
+                ok = all(render(e[2][0]) == R(b, x) for x in idx) and render(e[2][1]) == "#2"
                 ctx.ob("table", "entry: Entry is built on the selected bucket for the same key", ok, s.loc(), "")
                 ctx.ob("table", "entry: apply_pending precedes Entry::new", bool(ap) and all(b.dominates(a.bb, s.bb) and a.bb not in b.reachable(b.succ[s.bb]) for a in ap), s.loc(),
                        "a pending node that became a member is seen as Present, not Absent")
-            pb = [s for s in b.call_sites(r"VecDeque::push_back$") if "self.applied_pending" in R(b, s)]
+            pb = [s for s in b.call_sites(r"VecDeque::push_back$") if render(b.site_expr(s)[2][0]) == "self.%s" % F.applied]
             some = tg(lib.switch_edges_on(b, r"^discr\(libp2p_kad::kbucket::bucket::KBucket::apply_pending\(", {"Some"}))
             got = cnt(b, some, b.return_blocks(), pb) if some else None
             ctx.ob("table", "entry: every applied pending entry is recorded once", got == (1, 1), W, str(got))
     # Entry::new classification
     en = ctx.body(K, r"^libp2p_kad::kbucket::entry::Entry::new$")
-    P = r"^discr\(libp2p_kad::kbucket::bucket::KBucket::position\(bucket, key\)\)$"
-    A = r"^discr\(libp2p_kad::kbucket::bucket::KBucket::as_pending\(bucket, key\)\)$"
+    POSC = "libp2p_kad::kbucket::bucket::KBucket::position(#1, #2)"
+    ASP = "libp2p_kad::kbucket::bucket::KBucket::as_pending(#1, #2)"
+    P, A = "^discr\\(" + re.escape(POSC) + "\\)$", "^discr\\(" + re.escape(ASP) + "\\)$"
     for variant, guards in (("Present", [(P, "Some")]), ("Pending", [(P, "None"), (A, "Some")]), ("Absent", [(P, "None"), (A, "None")])):
         rs = [s for s in lk.ret_sites(en) if lib.agg_variants(en.site_expr(s), r"entry::Entry$") == [variant]]
         ctx.floor("table", "Entry::" + variant, rs, 1)
         for s in rs:
             for pat, lab in guards:
                 ed = lib.switch_edges_on(en, pat, {lab})
-                ctx.ob("table", "Entry::%s only if %s is %s" % (variant, "position(key)" if pat == P else "as_pending(key)", lab), bool(ed) and en.must_pass_edges(s.bb, ed), s.loc(), "")
-            t = R(en, s)
+                ctx.ob("table", "Entry::%s only if %s is %s" % (variant, "position(key)" if pat == P else "as_pending(key)", lab), lk.passes(en, s.bb, ed), s.loc(), "")
+            f = dict(en.site_expr(s)[4])
             if variant == "Present":
-                ctx.ob("table", "Entry::Present carries status(position(key))", "1: libp2p_kad::kbucket::bucket::KBucket::status(bucket, libp2p_kad::kbucket::bucket::KBucket::position(bucket, key)@Some.0)" in t, s.loc(), t[-200:])
+                ctx.ob("table", "Entry::Present carries status(position(key))", render(f.get("1", ("unknown", "?"))) == "libp2p_kad::kbucket::bucket::KBucket::status(#1, %s@Some.0)" % POSC, s.loc(), render(f.get("1", ("unknown", "?")))[-200:])
             if variant == "Pending":
-                ctx.ob("table", "Entry::Pending carries the pending node's status", "1: libp2p_kad::kbucket::bucket::PendingNode::status(libp2p_kad::kbucket::bucket::KBucket::as_pending(bucket, key)@Some.0)" in t, s.loc(), t[-200:])
-    for fn, fld in (("position", "p.key"), ("as_pending", "p.node.key")):
-        cb = ctx.body(K, KB + fn + r"::\{closure#0\}$")
-        rs = [R(cb, s) for s in lk.ret_sites(cb)]
-        ok = len(rs) == 1 and re.match(r"^std::cmp::impls::eq\(std::convert::AsRef::as_ref\(%s\), std::convert::AsRef::as_ref\(\^\*key\)\)$" % re.escape(fld), rs[0]) is not None
-        ctx.ob("table", "%s compares key bytes of the stored node with the queried key" % fn, ok, lk.where(cb), str(rs))
+                ctx.ob("table", "Entry::Pending carries the pending node's status", render(f.get("1", ("unknown", "?"))) == "%s@Some.0.%s" % (ASP, F.p_status), s.loc(), render(f.get("1", ("unknown", "?")))[-200:])
+    for fn, fldp in (("position", r"#2\.key"), ("as_pending", r"#2\.%s\.key" % F.p_node)):
+        cbs = [c for c in prog.bodies(K) if c.kind == "closure" and lk.root_fn(prog, c).npath == "libp2p_kad::kbucket::bucket::KBucket::" + fn]
+        es = [c.site_expr(s) for c in cbs for s in lk.ret_sites(c)]
+        ok = len(es) == 1 and lk.cmp_norm(es[0], r"^std::convert::AsRef::as_ref\(%s\)$" % fldp, r"^std::convert::AsRef::as_ref\(\^0\)$") == "Eq"
+        ctx.ob("table", "%s compares key bytes of the stored node with the queried key" % fn, ok, lk.where(cbs[0]) if cbs else "", str([render(e) for e in es]))
+        pb = ctx.body(K, KB + fn + "$")
+        caps = [render(x) for c in mir.walk(pb.site_expr(lk.ret_sites(pb)[0])) if c[0] == "closure" for x in c[2]] if lk.ret_sites(pb) else []
+        ctx.ob("table", "%s: the compared key is the function's key argument" % fn, caps == ["#2"], lk.where(pb), str(caps))
     ai = ctx.body(K, r"^libp2p_kad::kbucket::entry::AbsentEntry::insert$")
     for s in ai.call_sites(KB + r"insert$"):
         t = R(ai, s)
-        ok = re.match(r"^libp2p_kad::kbucket::bucket::KBucket::insert\(self\.0\.bucket, libp2p_kad::kbucket::bucket::Node::Node\{key: std::clone::Clone::clone\(self\.0\.key\), value: value\}, status\)$", t) is not None
+        ok = t == "libp2p_kad::kbucket::bucket::KBucket::insert(self.0.%s, libp2p_kad::kbucket::bucket::Node::Node{key: std::clone::Clone::clone(self.0.%s), value: #2}, #3)" % (F.e_bucket, F.e_key)
         ctx.ob("table", "AbsentEntry::insert stores the entry's own key in the entry's bucket", ok, s.loc(), t[:220])
     bn = ctx.body(K, r"^libp2p_kad::kbucket::BucketIndex::new$")
-    rs = [R(bn, s) for s in lk.ret_sites(bn)]
-    ok = len(rs) == 1 and re.match(r"^std::option::Option::map\(libp2p_kad::kbucket::key::Distance::ilog2\(d\), closure:", rs[0]) is not None
-    ctx.ob("table", "BucketIndex::new = ilog2(distance).map(BucketIndex), None for distance 0", ok, lk.where(bn), str(rs)[:200])
+    es = [bn.site_expr(s) for s in lk.ret_sites(bn)]
+    ok = len(es) == 1 and es[0][0] == "call" and strip_generics(es[0][1]).endswith("Option::map") and render(es[0][2][0]) == "libp2p_kad::kbucket::key::Distance::ilog2(#1)" and es[0][2][1][0] == "closure"
+    ctx.ob("table", "BucketIndex::new = ilog2(distance).map(BucketIndex), None for distance 0", ok, lk.where(bn), str([render(e) for e in es])[:200])
 
 
 def check_who(ctx, prog):
-    callers = sorted({s.body.npath for s in prog.callers(K, KB + r"insert$")})
-    want = ["libp2p_kad::kbucket::bucket::KBucket::apply_pending", "libp2p_kad::kbucket::bucket::KBucket::update", "libp2p_kad::kbucket::entry::AbsentEntry::insert"]
+    KBP = "libp2p_kad::kbucket::bucket::KBucket::"
+    callers = sorted({lk.root_fn(prog, s.body).npath for s in prog.callers(K, KB + r"insert$")})
+    want = [KBP + "apply_pending", KBP + "update", "libp2p_kad::kbucket::entry::AbsentEntry::insert"]
     ctx.ob("who", "KBucket::insert called only via AbsentEntry / update / apply_pending", callers == want, msg=str(callers))
-    ab = sorted({s.body.npath for s in prog.callers(K, r"^libp2p_kad::kbucket::entry::AbsentEntry::new$")})
-    ctx.ob("who", "AbsentEntry constructed only by Entry::new", ab == ["libp2p_kad::kbucket::entry::Entry::new"], msg=str(ab))
-    agg = sorted({b.npath for b in prog.bodies(K) if b.agg_sites(r"kbucket::entry::AbsentEntry$")})
-    ctx.ob("who", "AbsentEntry aggregate built only in AbsentEntry::new", agg == ["libp2p_kad::kbucket::entry::AbsentEntry::new"], msg=str(agg))
+    ab = {lk.root_fn(prog, s.body).npath for s in prog.callers(K, r"^libp2p_kad::kbucket::entry::AbsentEntry::new$")}
+    ab |= {lk.root_fn(prog, b).npath for b in prog.bodies(K) if b.agg_sites(r"kbucket::entry::AbsentEntry$")}
+    ctx.ob("who", "AbsentEntry constructed only by Entry::new (via its constructor)", bool(ab) and ab <= {"libp2p_kad::kbucket::entry::Entry::new", "libp2p_kad::kbucket::entry::AbsentEntry::new"}, msg=str(sorted(ab)))
     allowed_nodes = {"insert": {"std::vec::Vec::push", "std::vec::Vec::insert"}, "remove": {"std::vec::Vec::remove"},
                      "apply_pending": {"std::vec::Vec::push", "std::vec::Vec::insert", "std::vec::Vec::remove"},
-                     "get_mut": {"<std::vec::Vec as std::ops::DerefMut>::deref_mut"}}
+                     "get_mut": {"<std::vec::Vec as std::ops::DerefMut>::deref_mut", "core::slice::iter_mut"}}
     n = 0
     for b in prog.bodies(K):
         if "kbucket" not in b.npath:
             continue
-        for f in ("nodes", "first_connected_pos"):
+        root = lk.root_fn(prog, b)
+        fn = root.npath.split("::")[-1]
+        in_kb = root.npath.startswith(KBP)
+        for f in (F.nodes, F.fcp):
             for s, k, t in lk.field_effects(b, f):
-                if f == "nodes" and not re.search(r"kbucket::bucket::KBucket", b.npath):
+                if not in_kb:
                     continue
                 n += 1
-                fn = b.npath.split("::")[-1]
-                if f == "nodes":
+                if f == F.nodes:
                     ok = k.startswith("call:") and k[5:] in allowed_nodes.get(fn, set())
                     ctx.ob("who", "nodes mutated only by insert/remove/apply_pending (get_mut: element access)", ok, s.loc(), "%s in %s" % (k, b.short))
                 else:
-                    ok = fn in ("insert", "remove", "apply_pending") and b.npath.startswith("libp2p_kad::kbucket::bucket::KBucket::")
-                    ctx.ob("who", "first_connected_pos written only by insert/remove/apply_pending", ok, s.loc(), "%s in %s" % (k, b.short))
+                    ctx.ob("who", "first_connected_pos written only by insert/remove/apply_pending", fn in ("insert", "remove", "apply_pending"), s.loc(), "%s in %s" % (k, b.short))
     ctx.ob("who", "floor:mutation sites", n >= 15, nontrivial=False, msg=str(n))
     for ctor in ("new", "default"):
         pat = r"^libp2p_kad::kbucket::bucket::KBucket::new$" if ctor == "new" else r"kbucket::bucket::KBucket as std::default::Default>::default$"
         b = ctx.body(K, pat)
-        ags = b.agg_sites(r"kbucket::bucket::KBucket$")
-        for s in ags:
-            t = R(b, s)
-            ctx.ob("who", "KBucket::%s starts empty with no boundary and no pending node" % ctor, "first_connected_pos: std::option::Option::None{}" in t and "pending: std::option::Option::None{}" in t and "nodes: std::vec::Vec::with_capacity(" in t, s.loc(), t[:260])
+        for s in b.agg_sites(r"kbucket::bucket::KBucket$"):
+            f = {k: render(v) for k, v in b.site_expr(s)[4]}
+            ok = f.get(F.fcp) == "std::option::Option::None{}" and f.get(F.pending) == "std::option::Option::None{}" and f.get(F.nodes, "").startswith("std::vec::Vec::with_capacity(")
+            ctx.ob("who", "KBucket::%s starts empty with no boundary and no pending node" % ctor, ok, s.loc(), str(f)[:260])
             if ctor == "new":
-                ctx.ob("who", "KBucket::new capacity = config.bucket_size", "capacity: config.bucket_size" in t, s.loc(), t[:260])
-    sites = sorted((b.npath, R(b, s)) for b in prog.bodies(K) for s in b.agg_sites(r"^libp2p_kad::kbucket::BucketIndex$"))
-    want = sorted([
-        ("libp2p_kad::kbucket::BucketIndex::new::{closure#0}", "libp2p_kad::kbucket::BucketIndex::BucketIndex{0: (i as usize)}"),
-        ("libp2p_kad::kbucket::KBucketsTable::iter::{closure#0}", "libp2p_kad::kbucket::BucketIndex::BucketIndex{0: arg2.0}"),
-        ("libp2p_kad::kbucket::ClosestBucketsIter::new", "libp2p_kad::kbucket::BucketIndex::BucketIndex{0: 0}"),
-        ("libp2p_kad::kbucket::ClosestBucketsIter::next_in::{closure#0}", "libp2p_kad::kbucket::BucketIndex::BucketIndex{0: i}"),
-        ("libp2p_kad::kbucket::ClosestBucketsIter::next_out::{closure#0}", "libp2p_kad::kbucket::BucketIndex::BucketIndex{0: i}"),
-        ("libp2p_kad::<kbucket::ClosestBucketsIter as std::iter::Iterator>::next", "libp2p_kad::kbucket::BucketIndex::BucketIndex{0: 0}"),
-    ])
-    ctx.ob("who", "BucketIndex constructed only at the audited sites (none derives an index for a key except BucketIndex::new)", [x[0] for x in sites] == [x[0] for x in want], msg=str([x[0].split("kbucket::")[-1] for x in sites]))
+                ctx.ob("who", "KBucket::new capacity = config.bucket_size", re.match(r"^#1\.\w+$", f.get(F.capacity, "")) is not None and f.get(F.nodes) == "std::vec::Vec::with_capacity(%s)" % f.get(F.capacity), s.loc(), str(f)[:260])
+    roots = sorted({lk.root_fn(prog, b).npath for b in prog.bodies(K) for s in b.agg_sites(r"^libp2p_kad::kbucket::BucketIndex$")})
+    want = sorted(["libp2p_kad::kbucket::BucketIndex::new", "libp2p_kad::kbucket::KBucketsTable::iter", "libp2p_kad::kbucket::ClosestBucketsIter::new",
+                   "libp2p_kad::kbucket::ClosestBucketsIter::next_in", "libp2p_kad::kbucket::ClosestBucketsIter::next_out",
+                   "libp2p_kad::<kbucket::ClosestBucketsIter as std::iter::Iterator>::next"])
+    ctx.ob("who", "BucketIndex constructed only in the audited functions (none derives an index for a key except BucketIndex::new)", roots == want, msg=str([x.split("kbucket::")[-1] for x in roots]))
+
+# thorough-tier sensitivity self-test (vrules/selftest.py): one-edit variants of the source that break the property
+MUTANTS = [
+    {"name": 'insert Connected: len >= capacity -> >', "file": 'protocols/kad/src/kbucket/bucket.rs',
+     "find": 'if self.nodes.len() >= self.capacity {\n                    if self.first_connected_pos == Some(0)',
+     "replace": 'if self.nodes.len() > self.capacity {\n                    if self.first_connected_pos == Some(0)',
+     "expect": '^insert/Connected: push only below capacity', "why": 'a bucket can grow to capacity + 1'},
+    {"name": 'remove Connected: last-element test dropped', "file": 'protocols/kad/src/kbucket/bucket.rs',
+     "find": 'if self.first_connected_pos.is_some_and(|p| p == pos.0)\n                        && pos.0 == self.nodes.len()\n',
+     "replace": 'if self.first_connected_pos.is_some_and(|p| p == pos.0)\n',
+     "expect": '^remove/Connected: boundary cleared only if removed node was last', "why": 'remaining connected nodes are reported Disconnected'},
+    {"name": 'status: pos >= boundary -> >', "file": 'protocols/kad/src/kbucket/bucket.rs',
+     "find": 'is_some_and(|i| pos.0 >= i)',
+     "replace": 'is_some_and(|i| pos.0 > i)',
+     "expect": '^status/closure is pos >= boundary', "why": 'the first connected node is reported Disconnected'},
+    {"name": 'apply_pending: replace <= now -> >=', "file": 'protocols/kad/src/kbucket/bucket.rs',
+     "find": 'if pending.replace <= Instant::now() {',
+     "replace": 'if pending.replace >= Instant::now() {',
+     "expect": '^apply_pending/eviction only after timeout', "why": 'a pending entry replaces before its timeout'},
+    {"name": 'insert Disconnected: boundary not advanced', "file": 'protocols/kad/src/kbucket/bucket.rs',
+     "find": '                    self.nodes.insert(*p, node);\n                    *p += 1;\n',
+     "replace": '                    self.nodes.insert(*p, node);\n',
+     "expect": '^insert/Disconnected,Some: boundary \\+1 exactly once', "why": 'a disconnected node is reported Connected'},
+    {"name": 'entry(): local key mapped to bucket 0', "file": 'protocols/kad/src/kbucket.rs',
+     "find": '        let index = BucketIndex::new(&self.local_key.as_ref().distance(key))?;',
+     "replace": '        let index = BucketIndex::new(&self.local_key.as_ref().distance(key)).unwrap_or(BucketIndex(0));',
+     "expect": '^table/entry: no bucket is touched for the local key', "why": 'the local key can be stored'},
+]
